@@ -482,7 +482,18 @@ bool SessionManager::handle_pending_handshake(const PeerId& peer_id, SocketHandl
         return false;
     }
 
-    const auto acceptance = handler_copy(peer_id, *payload);
+    std::optional<HandshakeAcceptance> acceptance;
+    try {
+        acceptance = handler_copy(peer_id, *payload);
+    } catch (const std::exception& ex) {
+        // Runs on the accept thread: refuse this connection, keep accepting the others.
+        std::cerr << "[SessionManager] handshake handler failed peer=" << peer_key_string(peer_id)
+                  << " error=" << ex.what() << std::endl;
+        return false;
+    } catch (...) {
+        std::cerr << "[SessionManager] handshake handler failed peer=" << peer_key_string(peer_id) << std::endl;
+        return false;
+    }
     if (!acceptance.has_value() || !acceptance->accepted) {
         return false;
     }
@@ -844,7 +855,21 @@ void SessionManager::receive_loop(const PeerId& peer_id, std::shared_ptr<Session
                 record_state(loop_state(drop_state.str()));
                 continue;
             }
-            handler_copy(message);
+            try {
+                handler_copy(message);
+            } catch (const std::exception& ex) {
+                // A handler that throws must not end the process: drop this session, keep the others.
+                record_state(loop_state("stage=handler-exception"));
+                std::cerr << "[SessionManager] message handler failed id=" << session->debug_id
+                          << " endpoint=" << session->endpoint
+                          << " error=" << ex.what() << std::endl;
+                break;
+            } catch (...) {
+                record_state(loop_state("stage=handler-exception"));
+                std::cerr << "[SessionManager] message handler failed id=" << session->debug_id
+                          << " endpoint=" << session->endpoint << std::endl;
+                break;
+            }
             std::ostringstream handled_state;
             handled_state << "stage=message-handled size=" << message.payload.size();
             record_state(loop_state(handled_state.str()));
